@@ -264,6 +264,82 @@ def nd_getitem(interp, o, i):
     return _np_elem(r, o.dtype)
 
 
+def _cast_elem(x, kind):
+    """numpy's cast on assignment into an array of dtype `kind`"""
+    if kind == "f":
+        if type(x) is Sym:
+            return Sym(to_real(num_term(x)), np.float64)
+        return float(x)
+    if kind == "i":
+        if type(x) is Sym:
+            if is_float_type(x.ty):
+                t = x.t
+                return mk(z3.If(t >= 0, z3.ToInt(t), -z3.ToInt(-t)), np.int64)  # truncation toward zero
+            return Sym(num_term(x), np.int64)
+        return int(x)
+    if kind == "b":
+        if type(x) is Sym:
+            return x if x.ty is bool else mk(x.t != 0, bool)
+        return bool(x)
+    return x
+
+
+def nd_setitem(interp, arr, idx, value):
+    """arr[idx] = value for integer / slice indices, with broadcasting and dtype cast"""
+    if not isinstance(idx, tuple):
+        idx = (idx,)
+    if any(type(i) is Sym for i in idx):
+        raise Unsupported("symbolic index assignment into ndarray")
+    if len(idx) > len(arr.shape):
+        raise PyExc(IndexError, ("too many indices for array",))
+    idx = idx + (slice(None),) * (len(arr.shape) - len(idx))
+    sel = []
+    out_shape = []
+    for i, n in zip(idx, arr.shape):
+        if isinstance(i, slice):
+            r = list(range(*i.indices(n)))
+            sel.append(r)
+            out_shape.append(len(r))
+        elif isinstance(i, (int, np.integer)) and not isinstance(i, bool):
+            j = int(i)
+            if j < -n or j >= n:
+                raise PyExc(IndexError, ("index %d is out of bounds for axis with size %d" % (j, n),))
+            sel.append([j % n])
+        else:
+            raise Unsupported("ndarray index %r in assignment" % (i,))
+    # broadcast the value to out_shape
+    if _scalar(value):
+        V = None
+    else:
+        v = value if type(value) is NDArr else to_ndarr(interp, value)
+        tgt = NDArr(_zeros_nested(tuple(out_shape)), tuple(out_shape), "f")
+        _, V = _broadcast(tgt, v)
+        if V.shape != tuple(out_shape):
+            raise PyExc(ValueError, ("could not broadcast input array from shape %s into shape %s" % (v.shape, tuple(out_shape)),))
+    import itertools
+
+    slice_axes = [k for k, i in enumerate(idx) if isinstance(i, slice)]
+    for combo in itertools.product(*[range(len(s_)) for s_ in sel]):
+        coords = [sel[k][c] for k, c in enumerate(combo)]
+        if V is None:
+            x = value
+        else:
+            d = V.data
+            for k in slice_axes:
+                d = d[combo[k]]
+            x = d
+        tgt = arr.data
+        for c in coords[:-1]:
+            tgt = tgt[c]
+        tgt[coords[-1]] = _cast_elem(x, arr.dtype)
+
+
+def _zeros_nested(shape):
+    if not shape:
+        return 0.0
+    return [_zeros_nested(shape[1:]) for _ in range(shape[0])]
+
+
 def has_symbolic(a):
     return any(type(x) is Sym for x in a.flat())
 
